@@ -64,6 +64,11 @@ def check(F, rep, tier):
     odt = None
     if rep.anchor("R03.3", "FlowArgs::override_dirty", od):
         odt = override_dirty_table(F, od[0])
+        if odt is None:
+            # the path-condition reader does not know this spelling: fall back to the abstract evaluation (known dirty state / distance)
+            full, _ = c04.override_dirty_full_table(F, od[0])
+            if full is not None and all(k[0] is not None for k in full):
+                odt = {(tag, fd, fnd, cd, ds == "pos"): v for (tag, fd, fnd, cd, ds), v in full.items() if cd is not None and ds is not None}
         if odt is None: rep.undecided("R03.3", "unrecognised-shape:override_dirty", "cannot extract the override_dirty decision table", od[0].where())
         else: rep.fn_seen(od[0])
     if ts is not None and odt is not None:
@@ -115,6 +120,8 @@ def check(F, rep, tier):
     core.borrow(F, rep, "c02", "C02", "R03.6", ("not-first-hit", "walk-source", "no-membership-filter", "argv:get_commits_in_topo_order", "argv:get_all_tags_from_commit_hash", "max-by", "error-swallowed:get_latest_tag"), "the base tag is the highest valid tag on the nearest tagged ancestor")
     core.borrow(F, rep, "c02", "C02", "R03.6", ("wiring:distance", "wiring:dirty", "wiring:bumped_branch", "producer:distance", "producer:is_dirty", "producer:current_branch"), "distance, dirty and branch reach the version unchanged")
     core.borrow(F, rep, "c07", "C07", "R03.6", ("narrowing-parse:",), "SemVer rendering keeps 64-bit core numbers")
+    core.borrow(F, rep, "c02", "C02", "R03.6", ("R02.7:root-test",), "the facts are read from the repository the command runs in (worktrees, submodules)")
+    core.borrow(F, rep, "c01", "C01", "R03.6", ("R01.1:non-ascii-class", "R01.1:char-class"), "branch names of any alphabet are reduced to ASCII identifiers, so the output is a version the order is defined on")
     return core.finish(rep, explanation=EXPL, assumptions=ASSUME, trusted=TRUST)
 
 def override_dirty_table(F, f):
